@@ -1066,6 +1066,12 @@ class Sim(object):
         trace = [-7, 3] + self.emit_reqs(po["loads"], reqs)
 
         def tag_of_resp(r):
+            try:
+                return _tag_of_resp(r)
+            except AttributeError:
+                return -77          # a response object of another request kind: shows up as a difference
+
+        def _tag_of_resp(r):
             if api == "direct":
                 return r.tag
             if api == "offset":
